@@ -6,33 +6,33 @@ ROOT = os.path.dirname(os.path.dirname(os.path.abspath(__file__)))
 CLAIMED = {
  "C03": dict(engine="store-sim", category="exploration", ref="DESIGN.md 4.1",
    technique="deterministic simulation: seeded histories of logical clients over shared state, checked step by step against a reference store model",
-   text="Seeded exploration of operation histories (definitions, assignments, closure creation/calls, vector operations through every kind of alias) on one real interpreter; after every step the returned value, every global and the alias classes of all reachable vectors are compared with an independent reference store. Sampling, not proof: the space of histories is unbounded, and what matters is the order of writes and reads through different paths, which is exactly what the schedule varies.",
+   text="Seeded exploration of operation histories (definitions, assignments, closure creation/calls, vector operations through every kind of alias) on one real interpreter; after every step the returned value, every global and the alias classes of all reachable vectors are compared with an independent reference store. Sampling, not proof: the space of histories is unbounded, and what matters is the order of writes and reads through different paths, which is exactly what the schedule varies. Histories include counters whose state lives in bindings made by internal defines (also evaluated late), by let / let* (one name bound twice) and inside the bodies of the bundled derived forms (begin, cond, when, or, and), vectors that contain themselves, redefined container names, and writes placed inside derived forms.",
    note="Trusted: the reference store model (sim/src/refint.rs), the structural observer, the getrandom seam for replay. Fault-free configuration; run-time errors other than literal-vector mutation are C08's."),
  "C08": dict(engine="store-sim", category="fault_enumeration", ref="DESIGN.md 4.2",
    technique="deterministic simulation with fault injection: run-time errors injected as faults at static position x dynamic occurrence into seeded histories, checked against a reference store model",
-   text="Engine A's histories with 0-3 fault transactions each: 8 fault kinds x calling contexts (operand, tail, tail-if arm, after trampoline bounces, mutual tail recursion, apply, n-th element inside for-each/fold-left/fold-right, caller with post-effects), nested to depth 2, optionally firing at the n-th dynamic evaluation through a host procedure. The error kind, the host effect trace (pre-effects once, no post-effect) and the whole store are checked immediately after the error and for the rest of the history. Kind x context fired counts are reported in the evidence.",
+   text="Engine A's histories with 0-3 fault transactions each: 8 fault kinds x calling contexts (operand, tail, tail-if arm, after trampoline bounces, mutual tail recursion, apply, n-th element inside for-each/fold-left/fold-right/map, caller with post-effects, operand of a tail call, test of an if, argument of a setter closure, test / clause body / receiver / else of a cond, operand of and / or, body or test of when / unless / begin, definition initialiser), nested to depth 2, also as storms of the same failing form, with type faults placed after an absorbing element, optionally firing at the n-th dynamic evaluation through a host procedure. The error kind, the host effect trace (pre-effects once, no post-effect) and the whole store are checked immediately after the error and for the rest of the history. Kind x context fired counts are reported in the evidence.",
    note="Trusted: reference store model, mapping of LogicError variants to error kinds, the (sim host) procedures. Which of several independent errors wins is never exercised (one fault per transaction)."),
 }
 
 CLAIMED.update({
  "C12": dict(engine="import-sim", category="exploration", ref="DESIGN.md 4.3",
    technique="deterministic simulation over the hash-order seam: each seeded import declaration is executed under several controlled HashMap key seeds and compared with a set-algebra model and with itself across seeds",
-   text="Seeded import declarations (1-3 import sets, only/except/prefix/rename nested to depth 2 quick / 3 thorough, admissible by construction incl. swaps and chains) over a library delivered natively, as registered text or as a file; each run on a fresh interpreter under 4 (quick) / 16 (thorough) hash-key seeds supplied through an interposed getrandom. Two verdicts: bindings equal the algebra under every seed; all seeds agree. The second verdict and exact replay are what simulation adds; the term space itself is sampled, not enumerated.",
+   text="Seeded import declarations (1-3 import sets, only/except/prefix/rename nested to depth 2 quick / 3 thorough, admissible by construction incl. swaps and chains) over a library delivered natively, as registered text or as a file; each run on a fresh interpreter under 4 (quick) / 16 (thorough) hash-key seeds supplied through an interposed getrandom. A third of the cases add a second declaration that may land on names the first one bound; a quarter make the declaration inside a wrapper library that passes on what it received; libraries with two exports of one value, with 20 exports, with names that are prefixes of each other. Two verdicts: the bindings the declaration adds equal the algebra under every seed; all seeds agree. The second verdict and exact replay are what simulation adds; the term space itself is sampled, not enumerated.",
    note="Trusted: the set algebra (engine_c::algebra + refint import sets), getrandom interposition as the only source of HashMap order. Inadmissible declarations are not generated."),
  "C13": dict(engine="library-world", category="exploration", ref="DESIGN.md 4.4",
    technique="deterministic simulation: seeded library worlds (files + registered sources + decoy working directory) and histories of imports, driver probes and program forms, checked against a reference module system",
-   text="Seeded worlds of 1-4 healthy libraries in a DAG with private state, private helpers, exports with and without rename; histories interleave import declarations (direct/prefix/only/rename) with driver-level calls of exported procedures and then program forms that redefine colliding names and call exported procedures. Libraries also re-export, export constants, rename exports onto internally bound names, import their dependencies through prefix/only/rename, keep a private macro or procedure of one common name, and one library has no import declaration at all. Every step is compared with a reference module system (one instance per library per interpreter); decoy libraries in the working directory must never be observed.",
+   text="Seeded worlds of 1-4 healthy libraries in a DAG with private state, private helpers, exports with and without rename; histories interleave import declarations (direct/prefix/only/rename) with driver-level calls of exported procedures and then program forms that redefine colliding names and call exported procedures. Libraries also re-export, export constants, rename exports onto internally bound names, import their dependencies through prefix/only/rename, keep a private macro or procedure of one common name, one library has no import declaration at all, one no export declaration, one is provided natively with a fresh mutable box per factory call, some assign a name they imported; declarations come in several pieces and orders, library files may hold other libraries or plain forms ahead of the wanted one; failing import declarations occur inside the histories. Every step is compared with a reference module system (one instance per library per interpreter); decoy libraries in the working directory must never be observed.",
    note="Trusted: reference module system in sim/src/refint.rs; libraries export procedures only. Fault-free configuration; faults are C14's."),
  "C14": dict(engine="library-world", category="fault_enumeration", ref="DESIGN.md 4.5",
    technique="deterministic simulation with fault injection: library health faults (missing, wrong name, faulting body, broken syntax, invalid UTF-8, directory, empty, truncated, dangling symlink), cycles and heal/break events injected into seeded import histories; oracle = graph analysis + fresh-interpreter run",
-   text="Seeded arbitrary import graphs with per-node health faults placed on reachable nodes, histories of 1-4 import attempts on one interpreter with heal/break events between them, decoy libraries in the working directory, program directory absolute or relative. Each attempt's outcome class must be one of the causes reachable in the graph as it is (Ok if none), must not panic, and is compared with the same import on a fresh real interpreter (history independence); cases with two or more reachable causes are executed again under a second hash-key seed and must report the same sequence (the outcome depends only on the graph). Unbounded loader recursion is caught by a nesting limit in the verification hook, process death is caught through the worker journal.",
-   note="Trusted: reachability/cycle analysis in engine_b::analyse; byte damage is placed inside the define-library form. Which of several reachable causes is reported is left open; after heal/break events outcomes for any mixture of library versions are accepted."),
+   text="Seeded arbitrary import graphs with per-node health faults placed on reachable nodes, histories of 1-4 import attempts on one interpreter with heal/break events between them, decoy libraries in the working directory, program directory absolute or relative, set late (attempts before any program ran) or moved to a second project between attempts; one run in 25 is a chain of 2-110 libraries (ending normally, in a back edge, in a missing or faulting library). Each attempt's outcome class must be one of the causes reachable in the graph as it is (Ok if none), must not panic, and is compared with the same import on a fresh real interpreter (history independence); cases with two or more reachable causes are executed again under a second hash-key seed and must report the same sequence (the outcome depends only on the graph). Unbounded loader recursion is caught by a nesting limit in the verification hook, process death is caught through the worker journal.",
+   note="Trusted: reachability/cycle analysis in engine_b::analyse; byte damage is placed inside the define-library form. Which of several reachable causes is reported is left open; after heal/break/move events an old version of a library is accepted only if an earlier attempt on that interpreter could have read it (or it was registered)."),
 })
 
 CLAIMED.update({
  "C19": dict(engine="isolation-sim", category="exploration", ref="DESIGN.md 4.9",
    technique="deterministic simulation: a seeded scheduler interleaves the forms of two programs over interpreter instances on one thread, with instance creation as a scheduled event; oracle = solo reference runs of the same real code on fresh threads",
-   text="Seeded program pairs with colliding names (store operations, fault transactions, define-syntax of the same keywords incl. redefinitions of when/unless/cond/let, same-named libraries with different contents, failing imports) interleaved uniformly, in bursts, or one after the other over two or three instances that live on one thread (instances are created at first use and may be dropped after their last form; programs may run a small, often failing, file through eval_file); 0-3 further instances are created at random points and must evaluate a fixed sanity program like an instance on a fresh thread. Every form's result must equal the result of the same program run alone.",
+   text="Seeded program pairs with colliding names (store operations, fault transactions, define-syntax of the same keywords incl. redefinitions of when/unless/cond/let, same-named libraries with different contents, failing imports) interleaved uniformly, in bursts, or one after the other over two or three instances that live on one thread (instances are created at first use and may be dropped after their last form; programs may run a small, often failing, file through eval_file); 0-3 further instances are created at random points and must evaluate a fixed sanity program like an instance on a fresh thread; a third of the programs assign or redefine names of the bundled libraries, a third contain forms that call a host procedure in the middle of their evaluation, inside which the scheduler places forms of the other instances or the creation of an instance. Every form's result must equal the result of the same program run alone.",
    note="Trusted: structural observer; solo runs of the same build as reference (metamorphic, no expected values). Only the one-thread configuration is explored: instances on different threads share no state by construction."),
 })
 
